@@ -44,6 +44,10 @@ func exploreSched(R *vlib.Out, sc *schedScenario) {
 	vsched.DelayBounding = sc.Delay
 	// replay determinism: the default execution run twice must give identical outcomes
 	if *vlib.Shard == 0 || true {
+		// a warm-up execution first: state that the code under test builds lazily and keeps at package level
+		// (a cache of search patterns, a sync.Once) belongs to the process, not to the execution; after one
+		// execution of the scenario it has reached the form every further execution finds
+		vsched.Run(vsched.Options{StrictTime: sc.Strict, MaxSteps: sc.MaxSteps}, sc.Body)
 		r1 := vsched.Run(vsched.Options{StrictTime: sc.Strict, MaxSteps: sc.MaxSteps}, sc.Body)
 		o1 := ""
 		if sc.Outcome != nil {
@@ -160,6 +164,8 @@ func replaySched(R *vlib.Out, scenarios func(name string, params map[string]any)
 		vlib.Fatal("replay: unknown scenario %q", rp.Scenario)
 	}
 	vsched.DelayBounding = rp.Delay
+	// the same warm-up execution as in the exploration (package-level lazily built state), then the recorded schedule
+	vsched.Run(vsched.Options{StrictTime: rp.Strict, MaxSteps: sc.MaxSteps}, sc.Body)
 	R.Eval()
 	r := vsched.Run(vsched.Options{Prefix: rp.Choices, StrictTime: rp.Strict, WantStacks: sc.WantStacks, MaxSteps: sc.MaxSteps}, sc.Body)
 	sig, detail := "", ""
